@@ -978,6 +978,140 @@ mod verif_driver_compile {
         println!("VERIF-CASES fn=compile_tx_body n={n}");
     }
 
+    // ---- C14 (compile stage, every position): a reduced IR sent by a client may hold ANY expression in ANY position.  Starting
+    // from a transaction that uses every section and every chain-specific directive, each position in turn receives each of
+    // ~70 expression shapes (absent, extreme integers, byte strings / hashes / addresses of odd lengths, empty and odd UTxO
+    // references and sets, empty and odd asset bundles, collections, constructors with extreme indices, unreduced operations)
+    // and the whole transaction goes through the public entry point: Ok or Err, never a panic.
+    // BOUND: 41 positions x 70 shapes, one position varied at a time; plus every directive with each of its keys missing.
+    #[test]
+    fn entry_point_is_total_on_every_shape() {
+        use tx3_tir::model::core::{Utxo, UtxoRef};
+        let mut n = 0;
+        let uref = |t: u8, l: usize, i: u32| UtxoRef { txid: vec![t; l], index: i };
+        let utxo = |t: u8, l: usize, addr: Vec<u8>| Utxo { r#ref: uref(t, l, 0), address: addr, datum: None, script: None, assets: tx3_tir::model::assets::CanonicalAssets::from_naked_amount(5) };
+        let addr = |k: u8| { let mut a = vec![0x61u8]; a.extend(vec![k; 28]); a };
+        let reward = |k: u8| { let mut a = vec![0xe0u8]; a.extend(vec![k; 28]); tir::Expression::Address(a) };
+        let asset = |policy: tir::Expression, name: tir::Expression, amount: tir::Expression| tir::AssetExpr { policy, asset_name: name, amount };
+        let b = |l: usize| tir::Expression::Bytes(vec![0xab; l]);
+        let mut shapes: Vec<(String, tir::Expression)> = vec![("None".into(), tir::Expression::None)];
+        for v in [0i128, 1, -1, 255, 1 << 32, (1 << 63) - 1, 1 << 63, (1 << 64) - 1, 1 << 64, -(1 << 63) - 1, i128::MAX, i128::MIN] { shapes.push((format!("Number({v})"), num(v))); }
+        shapes.push(("Bool".into(), tir::Expression::Bool(true)));
+        for t in ["", "x", "0x", "0xzz", "deadbeef", "addr1qx0rs5qrvx9qkndwu0w88t0xghgy3f53ha76kpx8uf496m9rn2ursdm3r0fgf5pmm4lpufshl8lquk5yykg4pd00hp6quf2hh2", "aa#0", "zz#x", "\u{e9}\u{1f600}"] { shapes.push((format!("String({t:?})"), tir::Expression::String(t.to_string()))); }
+        shapes.push(("String(200 chars)".into(), tir::Expression::String("\u{e9}".repeat(200))));
+        for l in [0usize, 1, 27, 28, 29, 31, 32, 33, 57, 64, 65, 300] { shapes.push((format!("Bytes({l})"), b(l))); }
+        for l in [0usize, 1, 28, 29, 57] { shapes.push((format!("Address({l} bytes)"), tir::Expression::Address(vec![0x61; l]))); shapes.push((format!("Hash({l} bytes)"), tir::Expression::Hash(vec![7; l]))); }
+        shapes.push(("Address(stake)".into(), reward(3)));
+        shapes.push(("UtxoRefs([])".into(), tir::Expression::UtxoRefs(vec![])));
+        for l in [0usize, 31, 32, 33] { shapes.push((format!("UtxoRefs(txid of {l} bytes)"), tir::Expression::UtxoRefs(vec![uref(9, l, u32::MAX)]))); }
+        shapes.push(("UtxoSet({})".into(), tir::Expression::UtxoSet(HashSet::new())));
+        shapes.push(("UtxoSet(txid of 5 bytes, empty address)".into(), tir::Expression::UtxoSet(HashSet::from([utxo(9, 5, vec![])]))));
+        shapes.push(("UtxoSet(two)".into(), tir::Expression::UtxoSet(HashSet::from([utxo(8, 32, addr(1)), utxo(9, 32, addr(2))]))));
+        shapes.push(("Assets([])".into(), tir::Expression::Assets(vec![])));
+        for (d, a) in [
+            ("lovelace -1", asset(tir::Expression::None, tir::Expression::None, num(-1))), ("lovelace 2^64", asset(tir::Expression::None, tir::Expression::None, num(1 << 64))),
+            ("token policy 0 bytes", asset(b(0), b(3), num(1))), ("token policy 27 bytes", asset(b(27), b(3), num(1))), ("token policy 29 bytes", asset(b(29), b(3), num(1))),
+            ("token name 0 bytes", asset(b(28), b(0), num(1))), ("token name 33 bytes", asset(b(28), b(33), num(1))), ("token name absent", asset(b(28), tir::Expression::None, num(1))),
+            ("token amount 0", asset(b(28), b(3), num(0))), ("token amount i128::MIN", asset(b(28), b(3), num(i128::MIN))), ("token amount not a number", asset(b(28), b(3), tir::Expression::Bool(true))),
+            ("policy not bytes", asset(num(1), b(3), num(1))), ("name text", asset(b(28), tir::Expression::String("\u{e9}".into()), num(1))),
+        ] { shapes.push((format!("Assets([{d}])"), tir::Expression::Assets(vec![a]))); }
+        shapes.push(("Assets(two classes)".into(), tir::Expression::Assets(vec![ada(5), tok(2, "B", 1)])));
+        shapes.push(("List([])".into(), tir::Expression::List(vec![])));
+        shapes.push(("List([1, None, bytes])".into(), tir::Expression::List(vec![num(1), tir::Expression::None, b(2)])));
+        shapes.push(("Map([])".into(), tir::Expression::Map(vec![])));
+        shapes.push(("Map([(1, 2), (1, 3)])".into(), tir::Expression::Map(vec![(num(1), num(2)), (num(1), num(3))])));
+        shapes.push(("Tuple".into(), tir::Expression::Tuple(Box::new((num(1), b(1))))));
+        for c in [0usize, 7, 128, usize::MAX] { shapes.push((format!("Struct(constructor {c})"), tir::Expression::Struct(tir::StructExpr { constructor: c, fields: vec![num(1)] }))); }
+        shapes.push(("an unapplied parameter".into(), tir::Expression::EvalParam(Box::new(tir::Param::ExpectValue("p".into(), tx3_tir::model::core::Type::Int)))));
+        shapes.push(("an unreduced addition".into(), tir::Expression::EvalBuiltIn(Box::new(tir::BuiltInOp::Add(num(1), num(2))))));
+        shapes.push(("an unevaluated compiler operation".into(), tir::Expression::EvalCompiler(Box::new(tir::CompilerOp::ComputeMinUtxo(num(0))))));
+        shapes.push(("a nested directive".into(), tir::Expression::AdHocDirective(Box::new(adhoc("withdrawal", vec![])))));
+
+        let base = || {
+            let mut tx = empty_tx();
+            tx.fees = num(321_000);
+            tx.inputs = vec![tir::Input { name: "a".into(), utxos: tir::Expression::UtxoRefs(vec![uref(0x33, 32, 1)]), redeemer: num(1) }];
+            tx.references = vec![tir::Expression::UtxoRefs(vec![uref(0x77, 32, 0)])];
+            tx.collateral = vec![tir::Collateral { utxos: tir::Expression::UtxoRefs(vec![uref(0x99, 32, 0)]) }];
+            tx.signers = Some(tir::Signers { signers: vec![tir::Expression::Bytes(vec![9; 28])] });
+            tx.outputs = vec![tir::Output { address: tir::Expression::Address(addr(3)), datum: num(7), amount: tir::Expression::Assets(vec![ada(3_000_000), tok(2, "B", 4)]), optional: false },
+                              tir::Output { address: tir::Expression::Address(addr(4)), datum: tir::Expression::None, amount: tir::Expression::Assets(vec![ada(2_000_000)]), optional: true }];
+            tx.mints = vec![tir::Mint { amount: tir::Expression::Assets(vec![tok(2, "B", 4)]), redeemer: num(2) }];
+            tx.burns = vec![tir::Mint { amount: tir::Expression::Assets(vec![tok(1, "A", 1)]), redeemer: tir::Expression::None }];
+            tx.adhoc = vec![
+                adhoc("withdrawal", vec![("credential", reward(8)), ("amount", num(5)), ("redeemer", num(4))]),
+                adhoc("vote_delegation_certificate", vec![("stake", reward(5)), ("drep", tir::Expression::Bytes(vec![6; 28]))]),
+                adhoc("plutus_witness", vec![("version", num(3)), ("script", tir::Expression::Bytes(vec![0x51, 1, 1, 0, 9]))]),
+                adhoc("native_witness", vec![("script", tir::Expression::Bytes([vec![0x82, 0x00, 0x58, 0x1c], vec![9u8; 28]].concat()))]),
+                adhoc("treasury_donation", vec![("coin", num(7))]),
+                adhoc("cardano_publish", vec![("to", tir::Expression::Address(addr(6))), ("amount", tir::Expression::Assets(vec![ada(9_000_000)])), ("datum", num(1)), ("version", num(3)), ("script", tir::Expression::Bytes(vec![0x51, 1, 1, 0, 2]))]),
+            ];
+            tx.metadata = vec![tir::Metadata { key: num(674), value: tir::Expression::String("b".into()) }];
+            tx.validity = Some(tir::Validity { since: num(100), until: num(200) });
+            tx
+        };
+        type Setter = Box<dyn Fn(&mut tir::Tx, tir::Expression)>;
+        let mut positions: Vec<(String, Setter)> = vec![
+            ("fees".into(), Box::new(|t, e| t.fees = e)),
+            ("reference".into(), Box::new(|t, e| t.references[0] = e)),
+            ("input.utxos".into(), Box::new(|t, e| t.inputs[0].utxos = e)),
+            ("input.redeemer".into(), Box::new(|t, e| t.inputs[0].redeemer = e)),
+            ("collateral.utxos".into(), Box::new(|t, e| t.collateral[0].utxos = e)),
+            ("signer".into(), Box::new(|t, e| t.signers.as_mut().unwrap().signers[0] = e)),
+            ("output.address".into(), Box::new(|t, e| t.outputs[0].address = e)),
+            ("output.datum".into(), Box::new(|t, e| t.outputs[0].datum = e)),
+            ("output.amount".into(), Box::new(|t, e| t.outputs[0].amount = e)),
+            ("optional output.amount".into(), Box::new(|t, e| t.outputs[1].amount = e)),
+            ("optional output.address".into(), Box::new(|t, e| t.outputs[1].address = e)),
+            ("mint.amount".into(), Box::new(|t, e| t.mints[0].amount = e)),
+            ("mint.redeemer".into(), Box::new(|t, e| t.mints[0].redeemer = e)),
+            ("burn.amount".into(), Box::new(|t, e| t.burns[0].amount = e)),
+            ("burn.redeemer".into(), Box::new(|t, e| t.burns[0].redeemer = e)),
+            ("metadata.key".into(), Box::new(|t, e| t.metadata[0].key = e)),
+            ("metadata.value".into(), Box::new(|t, e| t.metadata[0].value = e)),
+            ("validity.since".into(), Box::new(|t, e| t.validity.as_mut().unwrap().since = e)),
+            ("validity.until".into(), Box::new(|t, e| t.validity.as_mut().unwrap().until = e)),
+        ];
+        let keys: Vec<(usize, &str, Vec<&str>)> = vec![(0, "withdrawal", vec!["credential", "amount", "redeemer"]), (1, "vote_delegation_certificate", vec!["stake", "drep"]), (2, "plutus_witness", vec!["version", "script"]),
+            (3, "native_witness", vec!["script"]), (4, "treasury_donation", vec!["coin"]), (5, "cardano_publish", vec!["to", "amount", "datum", "version", "script"])];
+        for (ix, name, ks) in &keys {
+            for k in ks {
+                let (ix, k2) = (*ix, k.to_string());
+                positions.push((format!("{name}.{k}"), Box::new(move |t, e| { t.adhoc[ix].data.insert(k2.clone(), e); })));
+            }
+        }
+        let pparams = PParams {
+            network: Network::Testnet, min_fee_coefficient: 44, min_fee_constant: 155381, coins_per_utxo_byte: 4310,
+            cost_models: HashMap::from([(0u8, vec![0i64; 166]), (1u8, vec![0i64; 175]), (2u8, vec![0i64; 251])]),
+        };
+        // the base transaction itself compiles (otherwise nothing below reaches the later sections)
+        if !matches!(quiet(|| entry_point(&base(), &pparams).map(|_| ())), Ok(Ok(()))) {
+            witness("c14_cardano/entry_point#reachable-panic", "entry_point", "the base transaction of the shape sweep".into(), format!("{:?}", quiet(|| entry_point(&base(), &pparams).map(|_| ()))).chars().take(140).collect(), "Ok");
+        }
+        for (pos, set) in &positions {
+            for (sd, shape) in &shapes {
+                n += 1;
+                let mut tx = base();
+                set(&mut tx, shape.clone());
+                if let Err(p) = quiet(|| entry_point(&tx, &pparams).map(|_| ())) {
+                    witness("c14_cardano/entry_point#reachable-panic", "entry_point", format!("{pos} = {sd} class=shape-in-{}", pos.replace(' ', "-")), format!("panic:{}", p.chars().take(120).collect::<String>()), "Ok or Err");
+                }
+            }
+        }
+        // every directive with one of its keys missing, and with no data at all
+        for (ix, name, ks) in &keys {
+            for k in ks.iter().map(|k| Some(*k)).chain(std::iter::once(None)) {
+                n += 1;
+                let mut tx = base();
+                match k { Some(k) => { tx.adhoc[*ix].data.remove(k); } None => tx.adhoc[*ix].data.clear() }
+                if let Err(p) = quiet(|| entry_point(&tx, &pparams).map(|_| ())) {
+                    witness("c14_cardano/entry_point#reachable-panic", "entry_point", format!("directive {name} without {} class=directive-key-missing", k.unwrap_or("any data")), format!("panic:{}", p.chars().take(120).collect::<String>()), "Ok or Err");
+                }
+            }
+        }
+        println!("VERIF-CASES fn=entry_point n={n}");
+    }
+
     // ---- C10 (reproducibility): collateral inputs come out in template order, the same in every compilation.
     // BOUND: 12 distinct collateral references, 33 repetitions.
     #[test]
